@@ -7,7 +7,8 @@
    of HashMap iteration orders `sh` (parallel run) and `sh'` (sequential run). *)
 From Coq Require Import List ZArith Bool Permutation.
 From IB Require Import Engine.Val Engine.Ops Engine.AMap Engine.Nodes Engine.Exec Engine.Planner
-     Engine.Lang Engine.Denote Engine.Static Combiners.Lawful Proofs.EngineEquiv.
+     Engine.Lang Engine.Denote Engine.Static Engine.Classify Combiners.Lawful Proofs.EngineEquiv
+     Proofs.EngineClassify.
 Import ListNotations.
 
 (* both modes succeed and return the same rows: the identical sequence for class E (in particular
@@ -54,6 +55,29 @@ Proof. exact sharded_source_coherent. Qed.
 Theorem c01_vec_split_shape : forall data n,
     vec_split data n <> [] /\ (length (vec_split data n) <= Nat.max n 1)%nat.
 Proof. exact vec_split_shape. Qed.
+
+(* ---- the step language: a syntactic classifier decides membership in the fragment, so the
+   theorem applies to EVERY program the classifier accepts (all programs the correspondence
+   generators mark as classified), not to hand-picked examples ---- *)
+Theorem c01_classified_program_in_fragment : forall s steps t c,
+    classify s steps = Some (t, c) ->
+    plan_cls (cs_chain (compile s steps)) t c /\ t = term_tag s steps.
+Proof. exact classified_program_in_fragment. Qed.
+
+(* ... hence, for every classified program on which the planner's reorder pass is a no-op: the
+   optimised plan run by Runner::run_collect succeeds in both modes, for every partition count,
+   and returns the identical sequence (class E) / the same multiset (class P) *)
+Theorem c01_program_par_equiv_seq : forall s steps t c parts,
+    classify s steps = Some (t, c) ->
+    reorder_noop (fuse (cs_chain (compile s steps))) ->
+    exists rp rs, run_par s steps parts = Ok rp /\ run_seq s steps = Ok rs /\ rel c rp rs.
+Proof. exact program_par_equiv_seq. Qed.
+
+Example c01_example_classified :
+  classify (SrcVec TU [VInt 3; VInt 1; VInt 2])
+           [SKeyBy (FMod 2); SMapValues (FAdd 1); SGroupByKey; SCombineValuesLifted CSum; SUnkey;
+            SCombineGlobally CCount false (Some 1%nat)] = Some (TU, E).
+Proof. vm_compute. reflexivity. Qed.
 
 (* non-vacuity: a concrete plan with a barrier, a global combine and a join is in the fragment *)
 Example c01_example_in_fragment : exists chain t c,
